@@ -35,6 +35,10 @@ func HC16Publish() {
 	var cbVal, cbCalls int
 	e := &SendSideBWE{pacer: p, lossController: loss, latestBitrate: initial, minBitrate: minB, maxBitrate: maxB,
 		onTargetBitrateChange: func(b int) { cbVal = b; cbCalls++ }}
+	withCallback := vr.NondetBool()
+	if !withCallback {
+		e.onTargetBitrateChange = nil // the application polls GetTargetBitrate instead
+	}
 	// the delay controller clamps its target into the configured bounds (HC16RateStep)
 	target := vr.NondetInt(1, 1<<30)
 	vr.Assume(minB <= target && target <= maxB)
@@ -47,6 +51,10 @@ func HC16Publish() {
 		vr.Cover("callback fired")
 		vr.Assert(cbCalls == 1 && cbVal == got, "callback value is the value the getter returns")
 		vr.Assert(p.calls == 1 && p.rate == got, "pacer is told the same rate")
+	} else if got != initial {
+		vr.Cover("changed without callback")
+		vr.Assert(!withCallback, "a registered callback is told about every change")
+		vr.Assert(p.calls == 1 && p.rate == got, "pacer is told the same rate (no callback registered)")
 	} else {
 		vr.Assert(p.calls == 0 && got == initial, "unchanged bitrate: nothing published")
 	}
